@@ -66,7 +66,10 @@ def sanitize_variable_names(
             else:
                 next(expr_parts)
                 new_name = sanitize_variable_name(variable_name, env, template=template)
-                aliases[new_name] = variable_name
+                if new_name != variable_name:
+                    # Names that are already valid need no alias (and must not
+                    # be substituted back textually).
+                    aliases[new_name] = variable_name
                 sanitized_expr.append(f" {new_name} ")
         else:
             sanitized_expr.append(expr_part)
@@ -88,12 +91,12 @@ def sanitize_variable_name(
         template: A template to use for sanitized names, which is mainly useful
             if you need to undo the sanitization by string replacement.
     """
-    if name.isidentifier() or keyword.iskeyword(name):
+    if name.isidentifier() and not keyword.iskeyword(name):
         return name
 
     # Compute recognisable basename
     base_name = "".join([char if re.match(r"\w", char) else "_" for char in name])
-    if not base_name or base_name[0].isdigit():
+    if not base_name or base_name[0].isdigit() or keyword.iskeyword(base_name):
         base_name = "_" + base_name
 
     # Verify new name is not in env already, and if not add a random suffix.
